@@ -96,6 +96,19 @@ def check_C18(ctx, unit, nbits):
                 c = canon(init)
                 if "this.buffer" in c or "__begin" in c or "__range" in c:
                     refs.add(did)
+            # reference parameters of virtually inlined helpers / lambdas that are bound to such an element
+            grew = True
+            while grew:
+                grew = False
+                for did, a in f.bind_map().items():
+                    if did in refs:
+                        continue
+                    an = f.node(a)
+                    c = canon(an)
+                    if "this.buffer" in c or "__begin" in c or "__range" in c or any(
+                            x.kind == "DeclRefExpr" and x.d.get("d") in refs for x in an.walk()):
+                        refs.add(did)
+                        grew = True
             for n in f.events():
                 if n.kind in ("BinaryOperator", "CompoundAssignOperator") and n.op.endswith("=") and n.op not in ("==", "!=", "<=", ">="):
                     l = n.children[0]
@@ -260,6 +273,8 @@ def check_C18(ctx, unit, nbits):
                                 rel = 0
                 if rel is not None:
                     continue
+                if _diff_nonneg(f, n, inits):
+                    continue
                 a = RB.ieval(n.children[0], env, f)
                 b = RB.ieval(n.children[1], env, f)
                 if a.lo < b.hi:
@@ -282,6 +297,18 @@ def check_C18(ctx, unit, nbits):
                     for s_ in sets:
                         a = s_.args
                         conv = any(x.get("convfn", "").endswith("operator bool") for x in a[1].walk()) if len(a) > 1 else False
+                        if not conv and len(a) > 1:
+                            # the same expression operator bool() returns, spelled out on the source reference
+                            # (`x.s.test(x.index)`), possibly held in a once-initialised local
+                            import re as _re
+                            ob = [g for g in unit.functions if g.owner_clsqn == f.owner_clsqn and g.name == "operator bool"]
+                            rv = ob[0].return_nodes()[0].child("val") if ob and len(ob[0].return_nodes()) == 1 else None
+                            pn = f.params()[0]
+                            val = RA.resolve_local(f, a[1])
+                            if rv is not None:
+                                want = canon(std_unwrap(rv))
+                                got = _re.sub(r"\b%s#%d\b" % (_re.escape(pn["n"]), pn["d"]), "this", canon(std_unwrap(val)))
+                                conv = want == got
                         own = path(a[0]) == ("this", "index") if a else False
                         ok = conv and own
                         why = "value read through operator bool: %s; own index written: %s" % (conv, own)
@@ -482,27 +509,70 @@ def check_concat(ctx, unit):
             atd = None
         else:
             atd = ats[0]
+        # input pieces in parameter order, with their extents
+        pieces = []
+        for p_ in ps:
+            m = re.search(r"^const frg::array<.*, (\d+)(UL)?> &$", p_["t"])
+            if m and p_["d"] != resd:
+                pieces.append((p_["d"], int(m.group(1))))
+        pidx = {d: k for k, (d, _) in enumerate(pieces)}
+        # the offset parameter may be advanced in place between the pieces (`at += n;` after each copy loop): its value
+        # relative to its value on entry, at every element outside loops
+        at_off = {}
+        if atd is not None:
+            cyc = in_cycle_nodes(f)
+
+            def tr(n, st):
+                at_off.setdefault(n.id, set()).add(st)
+                if n.id in cyc or st is None:
+                    return [st]
+                if n.kind == "CompoundAssignOperator" and n.op in ("+=", "-=") and std_unwrap(n.children[0]).kind == "DeclRefExpr" \
+                        and std_unwrap(n.children[0]).d["d"] == atd:
+                    c = base_leaf(n.children[1])
+                    c = c.t.get((), None) if c is not None and all(k == () for k in c.t) else (0 if c is not None and not c.t else None)
+                    return [None if c is None else (st + c if n.op == "+=" else st - c)]
+                if n.kind == "BinaryOperator" and n.op == "=" and std_unwrap(n.children[0]).kind == "DeclRefExpr" \
+                        and std_unwrap(n.children[0]).d["d"] == atd:
+                    pv = to_poly(n.children[1], base_leaf)
+                    if pv is not None:
+                        rest = pv - Poly.sym("v%d" % atd)
+                        if all(k == () for k in rest.t):
+                            return [st + rest.t.get((), 0)]
+                    return [None]
+                return [st]
+            flow.run(f, [0], tr, None)
+
+        def shifted(pv, node):
+            """pv with the offset parameter replaced by (entry value + what was added to it before `node`)."""
+            offs = at_off.get(node.id, {0})
+            if pv is None or len(offs) != 1 or None in offs:
+                return None
+            return _subst(pv, "v%d" % atd, Poly.sym("v%d" % atd) + Poly.const(next(iter(offs)))) if atd is not None else pv
+        copied = set()
         ext = None
         for (n, l, r) in stores:
             n_copy += 1
             src = std_unwrap(r.args[0])
-            sp = [p for p in ps if src.kind == "DeclRefExpr" and p["d"] == src.d["d"]]
-            m = re.search(r"frg::array<.*, (\d+)(UL)?>", sp[0]["t"]) if sp else None
-            if not m:
+            if not (src.kind == "DeclRefExpr" and src.d["d"] in pidx):
                 problems.append("source of the copy at %s is not an input array parameter" % n.loc)
                 continue
-            ext = int(m.group(1))
-            pi, pj = to_poly(l.args[1], leaf), to_poly(r.args[1], leaf)
-            if pi is None or pj is None or atd is None or not (pi - pj == Poly.sym("v%d" % atd)):
-                problems.append("copy at %s writes res[%s] from other[%s]: destination is not at + source index" % (n.loc, canon(l.args[1]), canon(r.args[1])))
+            k = pidx[src.d["d"]]
+            ext = pieces[k][1]
+            copied.add(k)
+            before = sum(e for (_, e) in pieces[:k])
+            pi, pj = shifted(to_poly(l.args[1], leaf), n), to_poly(r.args[1], leaf)
+            want = None if atd is None or before is None else Poly.sym("v%d" % atd) + Poly.const(before)
+            if pi is None or pj is None or want is None or not (pi - pj == want):
+                problems.append("copy at %s writes res[%s] from piece #%d [%s]: destination is not at + (extents of the pieces before it) + source index" % (
+                    n.loc, canon(l.args[1]), k + 1, canon(r.args[1])))
             # source index is a loop variable bounded by the extent
             jv = std_unwrap(r.args[1])
             bounded = False
             for cond, truth in flow.facts_at(f, n.id):
                 rel = flow.fact_relation(cond, truth)
-                if rel and rel[1] == "<" and std_unwrap(rel[0]).kind == "DeclRefExpr" and jv.kind == "DeclRefExpr" and std_unwrap(rel[0]).d["d"] == jv.d["d"]:
+                if rel and rel[1] in ("<", "!=") and std_unwrap(rel[0]).kind == "DeclRefExpr" and jv.kind == "DeclRefExpr" and std_unwrap(rel[0]).d["d"] == jv.d["d"]:
                     b = to_poly(rel[2], leaf)
-                    if b == Poly.const(ext):
+                    if b == Poly.const(ext) and (rel[1] == "<" or _counts_up_from_zero(f, jv.d["d"])):
                         bounded = True
             if not bounded:
                 problems.append("copy loop at %s is not bounded by the extent %s of the piece" % (n.loc, ext))
@@ -510,17 +580,20 @@ def check_concat(ctx, unit):
         conts = []
         for n in f.events():
             if n.is_call() and n.kind == "CallExpr" and n.callee and n.callee["uq"].startswith("frg::details::") and n.args \
-                    and std_unwrap(n.args[0]).kind == "DeclRefExpr" and std_unwrap(n.args[0]).d["d"] == resd and len(n.args) >= 2:
+                    and std_unwrap(n.args[0]).kind == "DeclRefExpr" and std_unwrap(n.args[0]).d["d"] == resd and len(n.args) >= 2 \
+                    and not n.d.get("inlined"):
                 conts.append((n, n.args[1]))
         for r_ in f.return_nodes():
             if r_.child("val") is not None:
                 conts.append((r_, r_.child("val")))
-        if not conts:
-            problems.append("the offset of the next piece is neither passed on nor returned")
+        done = sum(pieces[k][1] for k in copied)
+        if not conts and copied != set(range(len(pieces))):
+            problems.append("the offset of the next piece is neither passed on nor returned, and pieces %s are not copied here" % sorted(
+                set(range(1, len(pieces) + 1)) - {k + 1 for k in copied}))
         for (n, e) in conts:
-            pe = to_poly(e, leaf)
-            if atd is None or ext is None or pe is None or not (pe == Poly.sym("v%d" % atd) + Poly.const(ext)):
-                problems.append("next piece starts at %s (at %s), expected at + %s" % (canon(e), n.loc, ext))
+            pe = shifted(to_poly(e, leaf), n)
+            if atd is None or pe is None or not (pe == Poly.sym("v%d" % atd) + Poly.const(done)):
+                problems.append("next piece starts at %s (at %s), expected at + %s" % (canon(e), n.loc, done))
         ctx.inst("E.concat-offset", f.sig, not problems, f.loc, "; ".join(problems[:3]) if problems else
                  "res[at + j] = piece[j], j < %s; next offset at + %s" % (ext, ext), f)
     if n_copy < 2:
@@ -534,3 +607,82 @@ def check_concat(ctx, unit):
             return x.cv() == 0
         ok = bool(starts) and zero(starts[0].args[1])
         ctx.inst("E.concat-offset", "frg::array_concat: first piece", ok, f.loc, "first piece starts at offset 0: %s" % ok, f)
+
+
+def _diff_nonneg(f, sub, inits):
+    """`A - B` cannot go below zero because a dominating branch decision says so, compared as linear forms after
+    expanding once-initialised locals (`const size_t from = i - wshift;` ... `from - 1` under `i > wshift`): the
+    difference minus some established non-negative form `b - a [- 1]` is a non-negative constant."""
+    from .poly import Poly, to_poly
+
+    def leaf(x, depth=0):
+        x = x.strip()
+        if x.kind == "DeclRefExpr" and x.get("local"):
+            d = x.d["d"]
+            if d in inits and not RA._reassigned(f, d) and depth < 6:
+                r = to_poly(inits[d], lambda y: leaf(y, depth + 1))
+                if r is not None:
+                    return r
+            return Poly.sym("v#%d" % d)
+        p_ = path(x)
+        if p_:
+            return Poly.sym(".".join(p_))
+        return Poly.sym("e:" + canon(x))
+    T = to_poly(sub.children[0], leaf)
+    B = to_poly(sub.children[1], leaf)
+    if T is None or B is None:
+        return False
+    T = T - B
+
+    def const_nonneg(p):
+        return all(k == () for k in p.t) and p.t.get((), 0) >= 0
+    if const_nonneg(T):
+        return True
+    for cond, truth in flow.facts_at(f, sub.id):
+        rel = flow.fact_relation(cond, truth)
+        if rel is None:
+            continue
+        a, op, b = rel
+        pa, pb = to_poly(a, leaf), to_poly(b, leaf)
+        if pa is None or pb is None:
+            continue
+        forms = []
+        if op == "<":
+            forms.append(pb - pa - Poly.const(1))
+        elif op == "<=":
+            forms.append(pb - pa)
+        elif op == "==":
+            forms += [pb - pa, pa - pb]
+        for F in forms:
+            if const_nonneg(T - F):
+                return True
+    return False
+
+
+def _subst(p, sym, repl):
+    from .poly import Poly
+    out = Poly()
+    for k, v in p.t.items():
+        term = Poly.const(v)
+        for x in k:
+            term = term * (repl if x == sym else Poly.sym(x))
+        out = out + term
+    return out
+
+
+def in_cycle_nodes(f):
+    from .rules_own import in_cycle_blocks
+    cyc = in_cycle_blocks(f)
+    return {n.id for b in cyc for n in f.blocks[b].nodes()}
+
+
+def _counts_up_from_zero(f, did):
+    """local `did` is a loop counter that starts at 0 and is only ever incremented by one (so `i != N` is `i < N`)."""
+    from .rules_own import for_loops
+    for lp in for_loops(f):
+        if lp.ivar == did:
+            st = lp.step_of()
+            if st is not None and st[0] == "++" and lp.start is not None and lp.start.strip().cv() == 0:
+                return True
+    return False
+
